@@ -690,6 +690,7 @@ pub fn run(cfg: &RunCfg, rep: &mut Report) {
         let mut gc = GenCfg::new(gen_cx, max_nodes);
         gc.repeat_keys = rng.chance(1, 3);
         gc.chaos_pct = if rng.chance(1, 3) { 12 } else { 0 };
+        gc.timelock_heavy = rng.chance(1, 3);
         let budget = 1 + rng.below(max_nodes);
         let want = *rng.pick(&[Base::B, Base::B, Base::B, Base::B, Base::V, Base::K, Base::W]);
         let mut f = {
